@@ -26,6 +26,7 @@ def run(chk, tier):
     chk.guarded(r_isoweek, P)
     chk.guarded(r_year_uses, P)
     chk.guarded(r_mdf_box, P, tier)
+    chk.guarded(r_mdf_lanes, P, tier)
     chk.guarded(r_cycle, P, tier)
     chk.assume("the branchy arithmetic that combines the verified tables (from_isoywd_opt spill, cycle_to_yo, succ/pred rollover) "
                "is not decided here")
@@ -468,3 +469,41 @@ def r_mdf_box(chk, P, tier):
         chk.expect(ok, "Some path", "Mdf::new accepts month in %s, day in %s (uninterpreted conditions: %s); expected month <= 12 and day <= 31 on the arguments" % (
             b["month"], b["day"], [pp(c[1])[:60] for c in other]), loc=P.loc(fn))
     chk.expect(len(somes) >= 1, "paths", "no success path")
+
+
+def r_mdf_lanes(chk, P, tier):
+    """Mdf packs month << 9 | day << 4 | flags. Each with_* replaces exactly its own lane: the kept mask is the complement of that lane (within the
+    13 packed bits) and the inserted value is shifted to the lane's position."""
+    chk.rule("LANES.mdf_with", "Mdf::with_flags / with_day / with_month keep exactly the other lanes (masks !0b1111, !(0b11111 << 4), low 9 bits) and insert at shift 0 / 4 / 9", floor=3)
+    ALL = 0x1fff
+    for name, lane, shift in (("with_flags", 0b1111, 0), ("with_day", 0b11111 << 4, 4), ("with_month", 0b1111 << 9, 9)):
+        fn = "naive::internals::Mdf::" + name
+        vals = []
+        for p_ in Sym(P, fn).paths():
+            if p_.end[0] != "return":
+                continue
+            r = p_.ret
+            if r[0] == "agg" and r[3] == "None":
+                continue
+            for t in walk_terms(r):
+                if t[0] == "bin" and t[1] == "BitOr":
+                    vals.append(t)
+        if not vals:
+            raise AnchorLost(fn + ": no BitOr in the result")
+        t = vals[0]
+        keep = None
+        ins_shift = None
+        for side in (t[2], t[3]):
+            if side[0] == "bin" and side[1] == "BitAnd":
+                for m in (side[2], side[3]):
+                    if m[0] in ("const", "named") and isinstance(const_of(m), int):
+                        keep = const_of(m)
+                    elif m[0] == "un" and m[1] == "Not" and isinstance(const_of(m[2]), int):
+                        keep = ~const_of(m[2])
+            elif side[0] == "bin" and side[1] in ("Shl", "ShlUnchecked"):
+                ins_shift = const_of(side[3])
+            elif side[0] in ("cast", "as", "field", "arg"):
+                ins_shift = 0
+        ok = keep is not None and (keep & ALL) == (ALL ^ lane) and ins_shift == shift
+        chk.expect(ok, name, "Mdf::%s keeps mask %s of the packed word and inserts at shift %s; expected to keep %s and insert at shift %d" % (
+            name, bin(keep & ALL) if keep is not None else None, ins_shift, bin(ALL ^ lane), shift), loc=P.loc(fn))
